@@ -474,6 +474,10 @@ func joinViews(ctx context.Context, scope *ReferenceScope, view *View, joinView 
 			if err != nil {
 				return err
 			}
+			if includeIndices.Exists(uint(idx)) {
+				// A column that the USING clause lists more than once is merged once.
+				continue
+			}
 			includeIndices.Add(uint(idx))
 
 			eidx, err := view.FieldIndex(excludeFields[i])
